@@ -54,14 +54,15 @@ func verifContains(xs []string, x string) bool {
 	return false
 }
 
-// verif:bound VerifC04Joins all 8 join operators on relations with 4 left headings x 5 right headings over {a,b,c,d} (every partition shape, both column orders), 1..2 rows per side with cells in {0,1}
+// verif:bound VerifC04Joins all 8 join operators on relations with 4 left headings x 5 right headings over {a,b,c,d} (every partition shape, both column orders), 1..2 (thorough: 1..3) rows per side with cells in {0,1}
 // verif:cover VerifC04Joins nonempty empty no-common all-common
 func VerifC04Joins() {
 	lh := verifLeftHeadings[verifChoice(len(verifLeftHeadings))]
 	rh := verifRightHeadings[verifChoice(len(verifRightHeadings))]
 	op := verifJoinOps[verifChoice(len(verifJoinOps))]
-	A, ra := verifRelation(lh, 1+verifChoice(2))
-	B, rb := verifRelation(rh, 1+verifChoice(2))
+	maxRows := verifWiden(2, 3)
+	A, ra := verifRelation(lh, 1+verifChoice(maxRows))
+	B, rb := verifRelation(rh, 1+verifChoice(maxRows))
 	var common, leftOnly, rightOnly []string
 	for _, n := range lh {
 		if verifContains(rh, n) {
